@@ -466,6 +466,14 @@ def main():
     warnings.simplefilter("ignore")
     import logging
     logging.disable(logging.CRITICAL)
+    if os.environ.get("VERIF_POISON") == "1":
+        # fresh numpy blocks are filled with 0xFF (a NaN pattern for floats, -1 for integers): a result that reads a
+        # cell nobody wrote (the masked-out cells of np.log(p, where=p > 0) in the 0 log 0 = 0 convention) shows
+        import numpy  # noqa
+        sys.path.insert(0, os.path.join(here, "poison"))
+        import poisonalloc as pz
+        pz.install(0xFF)
+        pz.set_enabled(1)
     devnull = open(os.devnull, "w")
     so, sys.stdout = sys.stdout, devnull          # the library prints a citation banner on import
     try:
